@@ -126,10 +126,17 @@ def loop_channels(run: core.Run, pool: core.Pool, drv: core.Driver, sets: list[d
                 if bad and hyp:
                     run.broken_tie(f"a real graph that meets the hypotheses of {thm} contradicts it ({phase}: {w['verdict']})",
                                    {"channel": "decomplp.validate", "rs": sets[i]["rs"], "routine": r, "verdict": w})
+                    run.violation(f"front:{key}_changes_behaviour", f"routine {r}: the real graph after the {phase} pass does not behave like the real graph before it (the theorem's hypotheses hold: the pass no longer is the modelled one): {w['verdict']} {w.get('why', '')} after test outcomes {w.get('path')}",
+                                  {"rs": sets[i]["rs"], "routine": r, "verdict": w})
                 elif bad:
                     # COUNTED only (like front:build_branches_changes_behaviour): the writer may compensate; the final text is judged by
                     # C02's validation as before.  First examples kept in LP_EXAMPLES.
                     cnt[f"front:{key}_changes_behaviour"] += 1
+                    if phase != "remove":
+                        # (remove_label_markers does change the reading of a Call whose fall-through leads to a by-passed Jump on the
+                        #  unchanged tree - raiseOk, DESIGN 9.1 - and convert() then falls back: counted; the other passes never do)
+                        run.violation(f"front:{key}_changes_behaviour", f"routine {r}: the real graph after the {phase} pass does not behave like the real graph before it: {w['verdict']} {w.get('why', '')} after test outcomes {w.get('path')}",
+                                      {"rs": sets[i]["rs"], "routine": r, "verdict": w})
                     if len(LP_EXAMPLES) < 8:
                         before = {"fall": "gs", "loops": "fl", "remove": "bl"}[phase]
                         after = {"fall": "fl", "loops": "bl", "remove": "rl"}[phase]
